@@ -53,6 +53,7 @@ def m_name_from(ex, st, callee, args, dest_ty):
 
 SCOPE_MODELS = [
     (R(r"^RefCell::<.*>::borrow(_mut)?$"), m_refcell_borrow),
+    (R(r"^RefCell::<.*>::new$"), lambda ex, st, c, a, d: iter([(st, a[0])])),
     (R(r"^<Ref(Mut)?<'_, .*> as Deref(Mut)?>::deref(_mut)?$"), lambda ex, st, c, a, d: iter([(st, a[0])])),
     (R(r"^core::slice::<impl \[.*\]>::last(_mut)?$"), m_slice_last),
     (R(r"^BTreeMap::<.*>::contains_key::<.*>$"), m_btree_contains),
